@@ -42,7 +42,7 @@ struct St {
     std::set<int> kinds_used;
     int fibers_touched = 0;
     bool lbl_try_null = false, lbl_try_ok_after_release = false, lbl_reader_writer_contended = false, lbl_rendezvous = false,
-         lbl_two_readers = false, lbl_release_during_timed = false, lbl_overlap_ops = false, lbl_fault_caught = false;
+         lbl_two_readers = false, lbl_release_during_timed = false, lbl_overlap_ops = false, lbl_fault_caught = false, lbl_nonpos = false;
     int ops_in_flight = 0;
 };
 St* S = nullptr;
@@ -162,6 +162,10 @@ vh::Outcome run_locks(const vh::Case& c, Prop prop) {
                     ScopedInc in_flight_guard(st.ops_in_flight);
                     long mops0 = vrt::me().mutex_ops;
                     long long w0 = vrt::me().waited_ns;
+                    long blk0 = vrt::me().blocking_ops;
+                    int dsel = (op.b >> 3) & 7;                 // which duration / deadline a timed form gets
+                    bool nonpos = dsel >= 4;
+                    if (nonpos && (kind == O_TRY_LOCK_FOR || kind == O_TRY_LOCK_UNTIL || kind == O_TRY_LOCK_SHARED_FOR || kind == O_TRY_LOCK_SHARED_UNTIL)) st.lbl_nonpos = true;
                     try {
                     // ---------------------------------------------------------------- exclusive handle ops
                     if (kind == O_LOCK || kind == O_TRY_LOCK || kind == O_TRY_LOCK_FOR || kind == O_TRY_LOCK_UNTIL) {
@@ -172,14 +176,19 @@ vh::Outcome run_locks(const vh::Case& c, Prop prop) {
                             if (is_try) st.in_try++;
                             auto h = kind == O_LOCK ? w.lock() : kind == O_TRY_LOCK ? w.try_lock() : [&] {
                                 if constexpr (timed_excl) {
-                                    if (kind == O_TRY_LOCK_FOR) return w.try_lock_for(std::chrono::milliseconds(3));
-                                    if (op.b & 1) return w.try_lock_until(std::chrono::system_clock::now() + std::chrono::milliseconds(50));      // a deadline on another clock
-                                    return w.try_lock_until(std::chrono::steady_clock::now() + std::chrono::milliseconds(50));
+                                    if (kind == O_TRY_LOCK_FOR) {
+                                        if (nonpos && (op.b & 1)) return w.try_lock_for(std::chrono::duration_cast<std::chrono::hours>(timed_arg(dsel, false)));   // a coarse signed representation
+                                        return w.try_lock_for(timed_arg(dsel, false));
+                                    }
+                                    if (op.b & 1) return w.try_lock_until(std::chrono::system_clock::now() + timed_arg(dsel, true));      // a deadline on another clock
+                                    return w.try_lock_until(std::chrono::steady_clock::now() + timed_arg(dsel, true));
                                 }
                                 else return w.try_lock();
                             }();
                             if (is_try) st.in_try--;
                             if (kind == O_TRY_LOCK_FOR && vrt::me().waited_ns - w0 > 3000000LL) vrt::fail("blocked-beyond-timeout", "try_lock_for(3ms) waited longer than the given time (virtual clock)");
+                            if ((kind == O_TRY_LOCK_FOR || kind == O_TRY_LOCK_UNTIL) && nonpos && enabled && vrt::me().blocking_ops != blk0)
+                                vrt::fail("blocked-beyond-timeout", std::string(opname[kind]) + " with a non-positive duration / past deadline blocked on the held mutex instead of giving up at once");
                             if (!enabled) {
                                 if (!h) vrt::fail("disabled-null", "acquisition returned a null handle although locking is disabled");
                                 if (vrt::me().mutex_ops != mops0) vrt::fail("disabled-locked", "a mutex operation was executed although locking is disabled");
@@ -278,14 +287,19 @@ vh::Outcome run_locks(const vh::Case& c, Prop prop) {
                             auto h = [&] {
                                 if (kind == O_TRY_LOCK_SHARED) return w.try_lock_shared();
                                 if constexpr (shared_timed) {
-                                    if (kind == O_TRY_LOCK_SHARED_FOR) return w.try_lock_shared_for(std::chrono::milliseconds(3));
-                                    if (kind == O_TRY_LOCK_SHARED_UNTIL) { if (op.b & 1) return w.try_lock_shared_until(std::chrono::system_clock::now() + std::chrono::milliseconds(50)); return w.try_lock_shared_until(std::chrono::steady_clock::now() + std::chrono::milliseconds(50)); }
+                                    if (kind == O_TRY_LOCK_SHARED_FOR) {
+                                        if (nonpos && (op.b & 1)) return w.try_lock_shared_for(std::chrono::duration_cast<std::chrono::hours>(timed_arg(dsel, false)));
+                                        return w.try_lock_shared_for(timed_arg(dsel, false));
+                                    }
+                                    if (kind == O_TRY_LOCK_SHARED_UNTIL) { if (op.b & 1) return w.try_lock_shared_until(std::chrono::system_clock::now() + timed_arg(dsel, true)); return w.try_lock_shared_until(std::chrono::steady_clock::now() + timed_arg(dsel, true)); }
                                 }
                                 if constexpr (const_lock) { if (kind == O_CONST_LOCK) return static_cast<const W&>(w).lock(); }
                                 return w.lock_shared();
                             }();
                             if (is_try) st.in_try--;
                             if (kind == O_TRY_LOCK_SHARED_FOR && vrt::me().waited_ns - w0 > 3000000LL) vrt::fail("blocked-beyond-timeout", "try_lock_shared_for(3ms) waited longer than the given time (virtual clock)");
+                            if ((kind == O_TRY_LOCK_SHARED_FOR || kind == O_TRY_LOCK_SHARED_UNTIL) && nonpos && enabled && vrt::me().blocking_ops != blk0)
+                                vrt::fail("blocked-beyond-timeout", std::string(opname[kind]) + " with a non-positive duration / past deadline blocked on the held mutex instead of giving up at once");
                             if (!enabled) {
                                 if (!h) vrt::fail("disabled-null", "shared acquisition returned a null handle although locking is disabled");
                                 if (vrt::me().mutex_ops != mops0) vrt::fail("disabled-locked", "a mutex operation was executed although locking is disabled");
@@ -363,6 +377,7 @@ vh::Outcome run_locks(const vh::Case& c, Prop prop) {
     if (st.lbl_release_during_timed) out.labels.push_back("try-succeeded-after-wait");
     if (st.lbl_two_readers) out.labels.push_back("two-readers-inside");
     if (st.lbl_rendezvous) out.labels.push_back("rendezvous");
+    if (st.lbl_nonpos) out.labels.push_back("non-positive-timeout");
     if (st.lbl_reader_writer_contended) out.labels.push_back("reader-found-writer");
     if (out.res.blocked_events) out.labels.push_back("contended");
     if (out.res.timeouts_fired) out.labels.push_back("timeout-fired");
@@ -378,6 +393,130 @@ vh::Outcome run_locks(const vh::Case& c, Prop prop) {
     return out;
 }
 
+
+// ================================================================================================ plain-old-data payloads
+// The wrappers are templates over T: the same guarantees must hold for small trivially copyable payloads, for which a library might be
+// tempted to take type-trait dependent short cuts.  Such payloads cannot be instrumented, so the oracle is value based: a holder of an
+// exclusive handle (or a modify functor) first writes a *dirty* value (odd), lets others run, checks that it is still there, and writes a
+// clean (even) value before releasing; whole-object load / cast / read must only ever see clean, internally consistent values, and
+// store / operator= must never land inside a holder's section.
+template<class U> struct PodScalar { U v; static PodScalar make(uint64_t x) { PodScalar p; p.v = (U)x; return p; } uint64_t get() const { return (uint64_t)v; } bool consistent() const { return true; } void put(uint64_t x) { v = (U)x; } };
+struct Pod16 { uint64_t a, b; static Pod16 make(uint64_t x) { Pod16 p; p.a = x; p.b = x; return p; } uint64_t get() const { return a; } bool consistent() const { return a == b; }
+               void put(uint64_t x) { a = x; vrt::step(); b = x; } };
+struct Pod3 { unsigned char c[3]; static Pod3 make(uint64_t x) { Pod3 p; p.c[0] = p.c[1] = p.c[2] = (unsigned char)x; return p; } uint64_t get() const { return c[0]; } bool consistent() const { return c[0] == c[1] && c[1] == c[2]; }
+              void put(uint64_t x) { c[0] = (unsigned char)x; vrt::step(); c[1] = (unsigned char)x; c[2] = (unsigned char)x; } };
+static_assert(std::is_trivially_copyable<PodScalar<uint8_t>>::value && sizeof(PodScalar<uint8_t>) == 1, "one-byte payload");
+enum class ByteEnum : uint8_t {};
+
+template<class P> struct PodOps { static P make(uint64_t x) { return P::make(x); } static uint64_t get(const P& p) { return p.get(); } static bool consistent(const P& p) { return p.consistent(); } static void put(P& p, uint64_t x) { p.put(x); } };
+template<> struct PodOps<bool> { static bool make(uint64_t x) { return (x & 1) != 0; } static uint64_t get(const bool& p) { return p ? 1 : 0; } static bool consistent(const bool&) { return true; } static void put(bool& p, uint64_t x) { p = (x & 1) != 0; } };
+template<> struct PodOps<ByteEnum> { static ByteEnum make(uint64_t x) { return (ByteEnum)(uint8_t)x; } static uint64_t get(const ByteEnum& p) { return (uint8_t)p; } static bool consistent(const ByteEnum&) { return true; } static void put(ByteEnum& p, uint64_t x) { p = (ByteEnum)(uint8_t)x; } };
+
+template<template<class, class> class WT, bool has_handle, bool is_opt, class M, class P>
+vh::Outcome run_pod(const vh::Case& c) {
+    using W = WT<P, M>;
+    using O = PodOps<P>;
+    constexpr bool is_bool = std::is_same<P, bool>::value;       // bool: clean = false, dirty = true
+    reset_case_globals();
+    vh::Outcome out;
+    int sections_in_progress = 0; bool lbl_load_during_section = false, lbl_store_during_section = false;
+    out.res = vrt::run(c.sched, [&] {
+        std::unique_ptr<W> wp;
+        if constexpr (is_opt) wp.reset(new W(true, O::make(0))); else wp.reset(new W(O::make(0)));
+        W& w = *wp;
+        uint64_t next_clean = 2;
+        auto clean_value = [&]() -> uint64_t { if (is_bool) return 0; uint64_t v = next_clean; next_clean += 2; if (next_clean > 250) next_clean = 2; return v; };
+        auto check_loaded = [&](const P& v, const char* what) {
+            if (!O::consistent(v)) vrt::fail("torn-load", std::string(what) + " returned a partially written value");
+            if (O::get(v) & 1) vrt::fail("dirty-load", std::string(what) + " returned a value that only exists inside another thread's exclusive section");
+        };
+        auto section = [&](P& obj, int steps) {
+            // the body of an exclusive handle / modify functor
+            if (sections_in_progress > 0) vrt::fail("sections-overlap", "two exclusive sections on the same wrapper overlap");
+            sections_in_progress++;
+            uint64_t before = O::get(obj);
+            if (before & 1) vrt::fail("dirty-value", "an exclusive section found another section's in-progress value");
+            uint64_t dirty = is_bool ? 1 : (before | 1);
+            O::put(obj, dirty);
+            for (int s2 = 0; s2 <= steps; ++s2) vrt::step();
+            if (O::get(obj) != dirty || !O::consistent(obj)) vrt::fail("write-under-holder", "the protected object changed while an exclusive handle was held");
+            O::put(obj, clean_value());
+            sections_in_progress--;
+        };
+        for (size_t i = 0; i < c.fibers.size(); ++i) {
+            if (c.fibers[i].empty()) continue;
+            vrt::spawn([&, i] {
+                for (auto& op : c.fibers[i]) {
+                    int kind = op.code % 8;
+                    if (kind <= 1) {
+                        if constexpr (has_handle) {
+                            auto h = (kind == 0 || (op.a & 1)) ? w.lock() : w.try_lock();
+                            if (h) section(*h, op.b & 3);
+                        } else w.modify([&](P& obj) { section(obj, op.b & 3); });
+                    } else if (kind <= 4) {
+                        if (sections_in_progress > 0) lbl_load_during_section = true;
+                        if constexpr (has_handle) { P v = w.load(); check_loaded(v, "load()"); }
+                        else {
+                            if (op.a & 1) { P v = w.load(); check_loaded(v, "load()"); }
+                            else if (op.a & 2) { P v = static_cast<P>(w); check_loaded(v, "conversion"); }
+                            else w.read([&](const P& obj) { P v = obj; vrt::step(); check_loaded(v, "read()"); if (O::get(obj) != O::get(v)) vrt::fail("unstable-read", "value changed inside read()"); });
+                        }
+                    } else {
+                        if (sections_in_progress > 0) lbl_store_during_section = true;
+                        P nv = O::make(clean_value());
+                        if (kind == 5) w.store(nv); else if (kind == 6) w = nv; else w.store(O::make(clean_value()));
+                    }
+                    if (vrt::me().held != 0) vrt::fail("lock-leaked", "a mutex is still held after an operation returned");
+                }
+            });
+        }
+        vrt::join_all();
+        P fin = w.load(); check_loaded(fin, "final load()");
+    });
+    if (lbl_load_during_section) out.labels.push_back("load-called-during-section");
+    if (lbl_store_during_section) out.labels.push_back("store-called-during-section");
+    out.nontrivial = lbl_load_during_section || lbl_store_during_section;
+    return out;
+}
+
+template<class M, class P> vh::Outcome pod_w(const vh::Case& c) {
+    switch (c.cfg.size() > 2 ? c.cfg[2] % 3 : 0) {
+        case 1: { auto o = run_pod<lg::guarded_opt, true, true, M, P>(c); o.labels.push_back("W=guarded_opt"); return o; }
+        case 2: { auto o = run_pod<lg::ordered_guarded, false, false, M, P>(c); o.labels.push_back("W=ordered_guarded"); return o; }
+        default: { auto o = run_pod<lg::guarded, true, false, M, P>(c); o.labels.push_back("W=guarded"); return o; }
+    }
+}
+template<class P> vh::Outcome pod_m(const vh::Case& c) {
+    switch (c.cfg.size() > 1 ? c.cfg[1] % 4 : 0) {
+        case 1: return pod_w<vstd::timed_mutex, P>(c);
+        case 2: return pod_w<vstd::shared_mutex, P>(c);
+        case 3: return pod_w<vstd::shared_timed_mutex, P>(c);
+        default: return pod_w<vstd::mutex, P>(c);
+    }
+}
+vh::Outcome run_pod_any(const vh::Case& c) {
+    static const char* pn[] = {"bool", "uint8", "byte-enum", "uint16", "uint32", "uint64", "3-byte struct", "16-byte struct"};
+    int sel = c.cfg.empty() ? 0 : c.cfg[0] % 8;
+    vh::Outcome o;
+    switch (sel) {
+        case 0: o = pod_m<bool>(c); break;
+        case 1: o = pod_m<PodScalar<uint8_t>>(c); break;
+        case 2: o = pod_m<ByteEnum>(c); break;
+        case 3: o = pod_m<PodScalar<uint16_t>>(c); break;
+        case 4: o = pod_m<PodScalar<uint32_t>>(c); break;
+        case 5: o = pod_m<PodScalar<uint64_t>>(c); break;
+        case 6: o = pod_m<Pod3>(c); break;
+        default: o = pod_m<Pod16>(c); break;
+    }
+    o.labels.push_back(std::string("T=") + pn[sel]);
+    return o;
+}
+vh::GenSpec pod_spec(bool th) { vh::GenSpec g; g.nfibers = 3; g.max_ops = th ? 5 : 4; g.ncodes = 8; g.amax = 4; g.bmax = 4; g.cfg_max = {8, 4, 3}; g.sched_len = 96; g.aux_len = 8; return g; }
+vh::Register rpod("C01p", pod_spec(false), pod_spec(true), run_pod_any,
+                  "guarded / guarded_opt / ordered_guarded over plain-old-data payloads (bool, 1/2/4/8-byte scalars, a byte enum, 3- and 16-byte structs) x 4 mutex types: exclusive sections write a dirty "
+                  "value, let others run and write a clean one; load / conversion / read must return clean consistent values and no store may land inside a section; "
+                  "non-trivial = a load or store was called while a section was in progress");
+
 using RunFn = vh::Outcome (*)(const vh::Case&, Prop);
 template<WK wk> constexpr std::array<RunFn, 4> row() {
     return {&run_locks<wk, vstd::mutex>, &run_locks<wk, vstd::timed_mutex>, &run_locks<wk, vstd::shared_mutex>, &run_locks<wk, vstd::shared_timed_mutex>};
@@ -392,7 +531,7 @@ vh::Outcome dispatch(const vh::Case& c, Prop prop) {
 
 vh::GenSpec spec(Prop p, bool thorough) {
     vh::GenSpec g;
-    g.nfibers = 4; g.max_ops = thorough ? 6 : 4; g.ncodes = 64; g.amax = 8; g.bmax = 8;
+    g.nfibers = 4; g.max_ops = thorough ? 6 : 4; g.ncodes = 64; g.amax = 8; g.bmax = 64;
     g.cfg_max = {p == P_C02 || p == P_C15 || p == P_C20 ? 12 : 20, 2, 2};
     if (p == P_C20) { g.fault_max = 10; g.fault_mask = vrt::F_FUNCTOR | vrt::F_COPY | vrt::F_ASSIGN; }
     g.sched_len = thorough ? 160 : 112; g.aux_len = 24;
